@@ -255,7 +255,7 @@ type runner struct {
 func (w *world) logTx1(r *opRun, out string) {
 	r.tx1Logged = true
 	r.tx1Out = out
-	if cr := curRunner; cr != nil && out == "changed" {
+	if cr := w.r; cr != nil && out == "changed" {
 		// concurrent requests: this first transaction ran while another request on the subject was between its first and
 		// its clean-up transaction
 		for _, o := range cr.liveRuns {
@@ -267,10 +267,9 @@ func (w *world) logTx1(r *opRun, out string) {
 	w.event(map[string]any{"ev": "tx1", "op": r.op, "s": r.subject, "out": out, "p": r.proc()})
 }
 
-var curRunner *runner
 
 func (w *world) event(e map[string]any) {
-	r := curRunner
+	r := w.r
 	sn := w.snapshot(r.subjects)
 	e["st"] = sn.project(r.subjects)
 	e["log"] = sn.Log
@@ -729,7 +728,7 @@ func runScript(t *testing.T, base string, n int, in input, sc script) (res resul
 	w := newWorld(t, base, n)
 	defer w.close()
 	r := &runner{w: w, in: in, subjects: in.Subjects, res: &res, opOnPending: map[string]bool{}, concOnPending: map[string]bool{}, committed: map[string][]int{}, didsOf: map[string]map[string]string{}}
-	curRunner = r
+	w.r = r
 	defer func() {
 		if rec := recover(); rec != nil {
 			res.Error = fmt.Sprintf("driver panic at step %d: %v", r.stepNo, rec)
@@ -808,7 +807,15 @@ func TestDriver(t *testing.T) {
 		var res result
 		for a := 1; a <= in.Attempts; a++ {
 			n++
-			res = runScript(t, base, n, in, sc)
+			// watchdog: a script that hangs inside a library (seen once in ~14000 scripts on an overloaded machine: go-stoabs
+			// lockWithCancel never returns) is abandoned with its world and reported as a harness error, never a verdict
+			ch := make(chan result, 1)
+			go func(n int) { ch <- runScript(t, base, n, in, sc) }(n)
+			select {
+			case res = <-ch:
+			case <-time.After(120 * time.Second):
+				res = result{ID: sc.ID, Violations: []violation{}, Drift: []string{}, Trace: []map[string]any{}, Error: "script abandoned after 120s (harness watchdog)"}
+			}
 			res.Attempts = a
 			if res.OrderMiss == 0 || res.Error != "" {
 				break
